@@ -15,7 +15,7 @@ import chainlib
 import vlib
 from props.c13 import selftest_reject
 
-MINE = {"Agreement", "LiveMatchesHead", "SameTransition"}
+MINE = {"Agreement", "LiveMatchesHead", "SameTransition", "SyncedAgrees"}
 
 
 def export_schedules(ctx, n):
@@ -34,6 +34,18 @@ def export_schedules(ctx, n):
 
 def describe(clause, row, rows, line):
     obs = row.get("obs", {})
+    if clause == "SyncedAgrees":
+        o, ro = row.get("obs", {}), row.get("refobs", {})
+        diff = {k: (ro.get(k), o.get(k)) for k in ro if ro.get(k) != o.get(k)}
+        if row.get("verdict") != "ok":
+            key = "SyncedAgrees:full-sync-refuses-canonical-chain:%s" % row.get("verdict")
+        else:
+            key = "SyncedAgrees:%s" % "+".join(sorted(diff))
+        what = ("history %s: a replica catching up by full sync on blocks %s..%s (%s blocks in one batch, %s certificates, %s identity-update "
+                "blocks) ended with verdict %s (%s) at head %s; differences to the replicas that followed block by block: %s" % (
+                    row.get("hid"), row.get("from"), row.get("to"), row.get("n"), row.get("certs"), row.get("idupd"), row.get("verdict"),
+                    (row.get("msg") or "")[:200], row.get("head"), json.dumps(diff)[:500]))
+        return key, what
     if clause == "SameTransition":
         who = sorted(k for k, v in row.get("verdicts", {}).items() if v == "roots-mismatch")
         flags = row.get("flags", 0)
@@ -75,7 +87,7 @@ def describe_graph(clause, row, rows, line):
 def main(ctx):
     quick = ctx.tier == "quick"
     r, sched, samples = export_schedules(ctx, 8 if quick else 64)
-    extra = ["-big"] if True else []
+    extra = ["-big", "-fsync"]
     trace, stats, out = chainlib.run_histories(ctx, quick, extra_args=extra, sched=sched)
     if stats is None:
         raise vlib.CheckError("driver failed:\n" + out[-3000:])
@@ -119,6 +131,7 @@ def main(ctx):
     cov = {"states": r.distinct, "transitions": r.generated,
            "traces_validated_against_impl": stats.get("histories", 0),
            "blocks_applied": stats.get("blocks", 0), "replicas_per_block": 6,
+           "full_sync_batches": sum(1 for x in vlib.read_ndjson(trace) if x.get("ev") == "Catchup"),
            "samples": samples, "order_sensitive_graphs_replayed": epochs_g, "epochloop_model_states": g.distinct,
            "rule": "history-shape schedules exported by TLC from Replicas.tla (3 scheduled replicas x 6 pre-history kinds x 4-block "
                    "cycle, at most one deviating replica per block) drive 6 real replicas (2 in other time zones) through seeded random "
